@@ -29,6 +29,8 @@ pub struct MemOpts {
     /// every k-th read / write of the transport reports a transient `Interrupted` (0 = never)
     pub read_intr: usize,
     pub write_intr: usize,
+    /// a write on the transport takes at most this many bytes (0 = everything)
+    pub write_max: usize,
 }
 
 #[derive(Clone, Copy, Debug, PartialEq, Eq, serde::Serialize, serde::Deserialize)]
@@ -97,6 +99,9 @@ pub fn run_mem(case: &ConvCase, opts: &MemOpts) -> Observation {
     }
     if opts.write_intr > 0 {
         client.set_write_interrupts(opts.write_intr);
+    }
+    if opts.write_max > 0 {
+        client.set_write_max(opts.write_max);
     }
     let sent_when_msg = Arc::new(StdMutex::new(vec![]));
     let sent_now = Arc::new(std::sync::atomic::AtomicUsize::new(0));
